@@ -147,7 +147,7 @@ func (p *DefaultOpcodeParser) Parse(s *bscript.Script) (ParsedScript, error) {
 		}
 
 		switch parsedOp.op.val {
-		case bscript.OpIF, bscript.OpNOTIF, bscript.OpVERIF, bscript.OpVERNOTIF:
+		case bscript.OpIF, bscript.OpNOTIF:
 			conditionalBlock++
 		case bscript.OpENDIF:
 			conditionalBlock--
